@@ -16,8 +16,26 @@ def _int_term_as_real(x):
     return z3.ToReal(z3.BV2Int(t, True) if is_bv(t) else t)
 
 
+POW10_RANGE = 6
+
+
+def pow10_term(e):
+    """10**e as a real term for a symbolic integer exponent known to lie in -6..6 (checked by one query)"""
+    if isinstance(e, int):
+        return z3.RealVal(Fraction(10) ** e)
+    t = e.t
+    t = z3.BV2Int(t, True) if is_bv(t) else t
+    ok, _ = core.ENG.valid(z3.And(t >= -POW10_RANGE, t <= POW10_RANGE))
+    if not ok:
+        raise EngineLimit("symbolic decimal exponent outside -6..6")
+    r = z3.RealVal(Fraction(10) ** POW10_RANGE)
+    for k in range(POW10_RANGE - 1, -POW10_RANGE - 1, -1):
+        r = z3.If(t == k, z3.RealVal(Fraction(10) ** k), r)
+    return r
+
+
 class SDec:
-    """num * 10**exp with exp a concrete int: the Decimal shapes the decoders produce."""
+    """num * 10**exp: the Decimal shapes the decoders produce. exp: concrete int or symbolic integer (no fork: see pow10_term)."""
 
     def __init__(self, num, exp):
         self.num = num if isinstance(num, SInt) else SInt(z3.IntVal(int(num)))
@@ -46,7 +64,7 @@ class SDec:
     __rmul__ = __mul__
 
     def as_real(self):
-        return _int_term_as_real(self.num) * z3.RealVal(Fraction(10) ** self.exp)
+        return _int_term_as_real(self.num) * pow10_term(self.exp)
 
     def __eq__(self, o):
         if isinstance(o, (int, SInt, Decimal, SDec)):
@@ -171,3 +189,40 @@ def within_rounding(got, exact, ulps=1):
     g = SReal.of(got).t
     a = z3.If(exact >= 0, exact, -exact)
     return z3.And(g - exact <= ulps * U * a, exact - g <= ulps * U * a)
+
+
+def real_term(x):
+    if isinstance(x, SReal):
+        return x.t
+    if isinstance(x, SInt):
+        return _int_term_as_real(x)
+    if isinstance(x, SDec):
+        return x.as_real()
+    if isinstance(x, bool):
+        x = int(x)
+    if isinstance(x, (int, float, Fraction)):
+        return z3.RealVal(Fraction(x))
+    return None
+
+
+def num_ifexp(c, a, b):
+    """conditional expression without a fork when the condition is symbolic and both arms are numbers: the result is the real-valued
+    term If(c, a, b) (the int/float type distinction of the arms is not kept)."""
+    if not isinstance(c, SBool):
+        return a() if c else b()
+    try:
+        va, vb = a(), b()
+    except (core.PathAbort, core.EngineLimit, core.EngineFault):
+        raise
+    except Exception:
+        return a() if bool(c) else b()
+    ta, tb = real_term(va), real_term(vb)
+    if ta is None or tb is None:
+        return va if bool(c) else vb
+    if isinstance(va, (int, SInt)) and isinstance(vb, (int, SInt)):
+        from .ints import unify
+        x, y = unify(va, vb)
+        return SInt(z3.If(c.t, x, y))
+    r = SReal(z3.If(c.t, ta, tb))
+    r.either = (c, va, vb)
+    return r
